@@ -1,4 +1,4 @@
-(* C08 -- text layer: str.splitlines after joining with newlines, universal-newline reading, utf8 round trip *)
+(* C08 -- text layer: str.splitlines after joining with newlines, utf8 round trip *)
 From Coq Require Import String ZArith NArith List Bool Lia.
 Require Import PV.Base.PyStrOps PV.Gen.Codecs PV.Model.Files.
 Import ListNotations.
@@ -25,51 +25,6 @@ Proof.
   rewrite splitlines_line by assumption. rewrite IH by assumption. reflexivity.
 Qed.
 
-(* ---------- universal newlines *)
-Lemma unl_no_cr : forall s, Forall (fun c => c <> 13%N) s -> universal_newlines s = s.
-Proof.
-  induction s as [|c s IH]; intros H; [reflexivity|].
-  inversion H as [|? ? Hc Hs]; subst. cbn [universal_newlines].
-  destruct (N.eqb_spec c 13); [contradiction|]. rewrite IH by assumption. reflexivity.
-Qed.
-
-(* reading in text mode never changes what splitlines returns *)
-Lemma sl_break : forall c s, is_break c = true -> (c <> 13%N \/ forall s', s <> 10%N :: s') ->
-  splitlines (c :: s) = [] :: splitlines s.
-Proof.
-  intros c s B H. cbn [splitlines]. rewrite B. destruct s as [|d s']; [reflexivity|].
-  destruct H as [H|H].
-  - destruct (N.eqb_spec c 13); [contradiction|]. reflexivity.
-  - destruct (N.eqb_spec d 10) as [->|Hd]; [exfalso; apply (H s'); reflexivity|].
-    rewrite andb_false_r. reflexivity.
-Qed.
-Lemma sl_crlf : forall s, splitlines (13%N :: 10%N :: s) = [] :: splitlines s.
-Proof. intros s. reflexivity. Qed.
-Lemma sl_nonbreak : forall c s, is_break c = false ->
-  splitlines (c :: s) = match splitlines s with [] => [[c]] | l :: ls => (c :: l) :: ls end.
-Proof. intros c s B. cbn [splitlines]. rewrite B. reflexivity. Qed.
-
-Lemma splitlines_unl_len : forall n s, (length s <= n)%nat -> splitlines (universal_newlines s) = splitlines s.
-Proof.
-  induction n as [|n IH]; intros s Hn.
-  - destruct s; [reflexivity|cbn in Hn; lia].
-  - destruct s as [|c s]; [reflexivity|]. cbn [length] in Hn.
-    cbn [universal_newlines].
-    destruct (N.eqb_spec c 13) as [->|Hc].
-    + destruct s as [|d s']; [reflexivity|].
-      destruct (N.eqb_spec d 10) as [->|Hd].
-      * rewrite sl_crlf. rewrite sl_break; [|reflexivity|left; discriminate].
-        rewrite IH by (cbn [length] in Hn; lia). reflexivity.
-      * rewrite sl_break; [|reflexivity|left; discriminate].
-        rewrite IH by lia.
-        rewrite (sl_break 13%N (d :: s')); [reflexivity|reflexivity|].
-        right. intros s'' E. injection E as E _. contradiction.
-    + destruct (is_break c) eqn:B.
-      * rewrite !sl_break by (auto). rewrite IH by lia. reflexivity.
-      * rewrite !sl_nonbreak by assumption. rewrite IH by lia. reflexivity.
-Qed.
-Lemma splitlines_unl : forall s, splitlines (universal_newlines s) = splitlines s.
-Proof. intros s. apply (splitlines_unl_len (length s)). apply le_n. Qed.
 Section Utf8Proofs.
 Open Scope N_scope.
 
